@@ -157,6 +157,9 @@ FIXED = [
     ("C04", "bd55290", "a numeric literal, `Number('1' + '0'.repeat(5000))`, `+s`, `isNaN(s)`, `'abc'[s]`, `a[s]` with 5000 digits left eval as the host's ValueError (int() refuses more than 4300 digits)"),
     ("C18", "db59e6b", "`parseFloat('1e')`, `parseFloat('1.5e+')` and `parseFloat('1e5.5')` were NaN (the longest valid prefix is 1, 1.5, 100000); `Number.parseFloat('Infinity')` was NaN while `parseFloat('Infinity')` was Infinity"),
     ("C18", "964556a", "`parseInt('10', 4294967312)` was NaN (ToInt32 of the radix is 16) and `parseInt('10', Infinity)` was NaN (radix 0 means 10)"),
+    ("C17", "3e4f355", "`var a=[1,2,3]; a.splice(); a.join()` was '' (splice without arguments removes nothing)"),
+    ("C17", "a314334", "`var a=new Uint8Array([1,2,3,4]); a.subarray(1)[0]=9; a.join()` stayed 1,2,3,4: a subarray of an array made from a list or a length was a copy, and its `.buffer` was undefined"),
+    ("C17", "2188f84", "`new Uint32Array(new ArrayBuffer(7))` built a 1-element view instead of raising RangeError"),
     ("C20", "33cb6fa", "`'baa'.search(/a/y)` was 1, `'baa'.match(/a/y)` matched, `'aaba'.replace(/a/gy,'x')` was 'xxbx' (a sticky regex matches only where it starts); `var r=/a/g; r.lastIndex=1; 'aaaa'.match(r); r.lastIndex` stayed 1 and a failed global match or replace left lastIndex as it was (global match/replace start at 0 and leave 0); a sticky non-global match/replace did not advance or reset lastIndex"),
 ]
 
